@@ -524,3 +524,228 @@ Proof.
     rewrite (Ha p) in Hcl; [discriminate|]. eapply Hg; eauto.
   - intros Hp Hw. unfold step. rewrite Hp, Hw. destruct (chan s); [rewrite Hc|]; eauto.
 Qed.
+
+(* ---------------------------------------------------------------- the lock holder is inside its critical section *)
+
+Definition inv_lock2 (s : state) : Prop :=
+  (lock s = Some T_Col -> col_crit (col s) = true) /\
+  (forall j, lock s = Some (T_End j) -> exists e, nth_error (ends s) j = Some e /\ end_crit e = true).
+
+Lemma inv_lock2_step : forall v s l s', inv_lock s -> inv_lock2 s -> step v s l = Some s' -> inv_lock2 s'.
+Proof.
+  intros v s l s' [Lc Le] [Mc Me] H. unfold inv_lock2.
+  destruct l; step_inv H; cbn in *; split.
+  all: try assumption.
+  all: try (intros; discriminate).
+  all: try (intros; reflexivity).
+  all: try (intros Hx; specialize (Mc Hx); congruence).
+  all: try (intros j Hl; first [ destruct (Me j Hl) as (e & Hj & Hc) | inversion Hl; subst; clear Hl ];
+            match goal with |- exists _, nth_error (set_nth ?i ?en _) _ = Some _ /\ _ =>
+              first
+              [ exists en; split; [eapply nth_error_set_nth_eq; eauto | reflexivity]
+              | destruct (Nat.eq_dec j i);
+                [ subst; match goal with Heq : nth_error (ends _) i = Some _ |- _ =>
+                    rewrite Heq in Hj; inversion Hj; subst; simpl in Hc; first [discriminate |
+                    (exists en; split; [eapply nth_error_set_nth_eq; eauto | reflexivity])] end
+                | exists e; split; [rewrite nth_error_set_nth_neq; auto | auto] ] ]
+            end; fail).
+  - rewrite Heqc. reflexivity.
+  - intros j Hl. destruct (Me j Hl) as (e & Hj & Hc). exists e. split; auto.
+    rewrite nth_error_app1; auto. apply nth_error_Some. congruence.
+Qed.
+
+Lemma reach_lock2 : forall v max s, reachable v max s -> inv_lock2 s.
+Proof.
+  intros v max s R. induction R.
+  - split; cbn; intros; discriminate.
+  - eapply inv_lock2_step; eauto using reach_lock.
+Qed.
+
+(* ---------------------------------------------------------------- V1: End terminates *)
+Lemma end_pc_eq_dec : forall a b : end_pc, {a = b} + {a <> b}.
+Proof. decide equality. Qed.
+
+
+Definition erank (e : end_pc) : nat :=
+  match e with E_Run => 6 | E_Melted => 5 | E_Locked => 4 | E_ChanClosed => 3 | E_Unlock => 2 | E_Finish => 1 | _ => 0 end.
+Fixpoint esum (l : list end_pc) : nat := match l with [] => 0 | e :: t => erank e + esum t end.
+Definition col_rank (c : col_pc) : nat :=
+  match c with C_Locked => 5 | C_Catching => 4 | C_Caught _ => 3 | C_Sending _ => 2 | C_Unlock _ => 1 | _ => 0 end.
+Definition own_rank (e : option end_pc) : nat :=
+  match e with Some E_Start => 2 | Some E_Wait => 1 | _ => 0 end.
+Definition once_rank (o : once_st) : nat := match o with O_Free => 8 | _ => 0 end.
+
+(* steps of End callers and of the collector that is inside Collect; no new call of any kind *)
+Definition helpful (l : label) : bool :=
+  match l with
+  | End_once _ | End_wait _ | End_melt _ | End_lock _ | End_closechan _ | End_closepeers _ | End_unlock _ | End_finish _
+  | Col_check | Catch_ok | Catch_err | Col_push | Col_send | Col_abort | Col_unlock => true
+  | _ => false
+  end.
+
+Definition end_rank (s : state) (i : nat) : nat :=
+  own_rank (nth_error (ends s) i) + esum (ends s) + col_rank (col s) + once_rank (once s).
+
+Lemma esum_set_nth : forall l i eo en, nth_error l i = Some eo ->
+  esum (set_nth i en l) + erank eo = esum l + erank en.
+Proof.
+  induction l as [|h t IH]; intros i eo en H; destruct i; simpl in *; try discriminate.
+  - inversion H; subst. lia.
+  - specialize (IH _ _ en H). lia.
+Qed.
+
+Lemma esum_zero : forall l, (forall j e, nth_error l j = Some e -> erank e = 0) -> esum l = 0.
+Proof.
+  induction l as [|h t IH]; intros H; simpl; [reflexivity|].
+  rewrite (H 0 h eq_refl). rewrite IH; [reflexivity|]. intros j e Hj. apply (H (S j) e Hj).
+Qed.
+
+Lemma erank_runner : forall e, erank e <> 0 -> runner_pc e = true.
+Proof. destruct e; simpl; intros; congruence. Qed.
+
+Definition oracle_ok (ok : bool) (l : label) : Prop :=
+  match l with Catch_ok => ok = true | Catch_err => ok = false | _ => True end.
+
+(* the runner of the Once (or the collector holding the lock it needs) can always take a step *)
+Lemma runner_progress : forall max s r er (ok : bool), reachable V1 max s ->
+  nth_error (ends s) r = Some er -> runner_pc er = true ->
+  exists l s' er', step V1 s l = Some s' /\ helpful l = true /\ oracle_ok ok l /\
+    esum (ends s') + col_rank (col s') < esum (ends s) + col_rank (col s) /\
+    once_rank (once s') <= once_rank (once s) /\
+    nth_error (ends s') r = Some er' /\ own_rank (Some er') = 0 /\
+    (forall j, j <> r -> nth_error (ends s') j = nth_error (ends s) j).
+Proof.
+  intros max s r er ok R Hr Hrun.
+  pose proof (v1_no_panic _ _ R) as Hp.
+  pose proof (reach_lock _ _ _ R) as [Lc Le].
+  pose proof (reach_lock2 _ _ _ R) as [Mc Me].
+  pose proof (reach_end _ _ _ R) as (E1 & E2 & E3 & E4 & E5 & E6).
+  pose proof (reach_once _ _ R) as (K1 & K2 & K3 & K4 & K5 & K6 & K7 & K8).
+  assert (Hupd : forall en, erank en < erank er ->
+             esum (set_nth r en (ends s)) + col_rank (col s) < esum (ends s) + col_rank (col s)).
+  { intros en H3. pose proof (esum_set_nth _ _ _ en Hr). lia. }
+  assert (Hnth : forall en, nth_error (set_nth r en (ends s)) r = Some en)
+    by (intros; eapply nth_error_set_nth_eq; eauto).
+  assert (Hoth : forall en j, j <> r -> nth_error (set_nth r en (ends s)) j = nth_error (ends s) j)
+    by (intros; apply nth_error_set_nth_neq; assumption).
+  destruct er; try discriminate.
+  - (* E_Run *) exists (End_melt r). unfold step. rewrite Hp, Hr, (K5 _ Hr).
+    eexists; exists E_Melted. repeat split; cbn; auto; try (apply Hupd; cbn; lia); try lia.
+  - (* E_Melted: needs the lock *)
+    destruct (lock s) eqn:El.
+    + (* held: by the collector, which can move *)
+      assert (Hm : melted s = true) by (eapply E3; eauto).
+      assert (Hcol : t = T_Col).
+      { destruct t as [|j]; [reflexivity|]. exfalso.
+        destruct (Me j eq_refl) as (e & Hj & Hc).
+        assert (j = r) by (eapply K1; eauto; destruct e; simpl in *; congruence). subst.
+        rewrite Hr in Hj. inversion Hj; subst. discriminate. }
+      subst. specialize (Mc eq_refl).
+      destruct (col s) eqn:Ec; try discriminate.
+      * exists Col_check. unfold step. rewrite Hp, Ec, Hm.
+        eexists; exists E_Melted. repeat split; cbn; auto; try lia.
+      * exists (if ok then Catch_ok else Catch_err). destruct ok; unfold step; rewrite Hp, Ec;
+          eexists; exists E_Melted; repeat split; cbn; auto; try lia.
+      * exists Col_push. unfold step. rewrite Hp, Ec.
+        eexists; exists E_Melted. repeat split; cbn; auto; try lia.
+      * exists Col_abort. unfold step. rewrite Hp, Ec, Hm.
+        eexists; exists E_Melted. repeat split; cbn; auto; try lia.
+      * exists Col_unlock. unfold step. rewrite Hp, Ec.
+        eexists; exists E_Melted. repeat split; cbn; auto; try lia.
+    + exists (End_lock r). unfold step. rewrite Hp, Hr, El.
+      eexists; exists E_Locked. repeat split; cbn; auto; try (apply Hupd; cbn; lia); try lia.
+  - (* E_Locked *)
+    assert (Hc : chan_closed s = false).
+    { destruct (chan_closed s) eqn:Ecc; [|reflexivity]. exfalso.
+      destruct (K8 eq_refl) as [Hd|(j & e & Hj & HP)].
+      - pose proof (K2 _ _ Hr eq_refl). congruence.
+      - assert (j = r) by (eapply K1; eauto; destruct e; simpl in *; congruence). subst.
+        rewrite Hr in Hj. inversion Hj; subst. discriminate. }
+    exists (End_closechan r). unfold step. rewrite Hp, Hr, Hc.
+    eexists; exists E_ChanClosed. repeat split; cbn; auto; try (apply Hupd; cbn; lia); try lia.
+  - exists (End_closepeers r). unfold step. rewrite Hp, Hr.
+    eexists; exists E_Unlock. repeat split; cbn; auto; try (apply Hupd; cbn; lia); try lia.
+  - exists (End_unlock r). unfold step. rewrite Hp, Hr.
+    eexists; exists E_Finish. repeat split; cbn; auto; try (apply Hupd; cbn; lia); try lia.
+  - exists (End_finish r). unfold step. rewrite Hp, Hr.
+    eexists; exists E_Done. repeat split; cbn; auto; try (apply Hupd; cbn; lia); try lia.
+Qed.
+
+Lemma end_progress : forall max s i e (ok : bool), reachable V1 max s ->
+  nth_error (ends s) i = Some e -> e <> E_Done ->
+  exists l s', step V1 s l = Some s' /\ helpful l = true /\ oracle_ok ok l /\
+    end_rank s' i < end_rank s i /\ exists e', nth_error (ends s') i = Some e'.
+Proof.
+  intros max s i e ok R Hi Hnd.
+  pose proof (v1_no_panic _ _ R) as Hp.
+  pose proof (reach_once _ _ R) as (K1 & K2 & K3 & K4 & K5 & K6 & K7 & K8).
+  assert (Hrun : forall r er, nth_error (ends s) r = Some er -> runner_pc er = true ->
+            (r = i \/ (r <> i /\ once s = O_Running)) -> 
+            exists l s', step V1 s l = Some s' /\ helpful l = true /\ oracle_ok ok l /\
+              end_rank s' i < end_rank s i /\ exists e', nth_error (ends s') i = Some e').
+  { intros r er Hr Hrp Hcase.
+    destruct (runner_progress _ _ _ _ ok R Hr Hrp) as (l & s' & er' & Hs & Hh & Ho & Hdec & Hon & Hn & Hown & Hoth).
+    exists l, s'. repeat split; auto.
+    - unfold end_rank. destruct Hcase as [->|[Hne _]].
+      + rewrite Hn, Hi. rewrite Hown.
+        assert (own_rank (Some e) = 0) by (rewrite Hi in Hr; inversion Hr; subst; destruct er; simpl in *; congruence).
+        lia.
+      + rewrite (Hoth i) by auto. lia.
+    - destruct Hcase as [->|[Hne _]]; [eauto|]. rewrite (Hoth i) by auto. eauto. }
+  destruct e; try congruence.
+  - (* E_Start *)
+    exists (End_once i). unfold step. rewrite Hp, Hi. destruct (once s) eqn:Eo.
+    + eexists. repeat split; cbn; auto.
+      * unfold end_rank. cbn. rewrite nth_error_set_nth_eq with (y := E_Start) by assumption. rewrite Hi, Eo. cbn.
+        assert (esum (ends s) = 0).
+        { apply esum_zero. intros j ej Hj. destruct (Nat.eq_dec (erank ej) 0); [assumption|exfalso].
+          pose proof (K2 _ _ Hj (erank_runner _ n)). congruence. }
+        pose proof (esum_set_nth _ _ _ E_Run Hi). cbn in *. lia.
+      * eexists. eapply nth_error_set_nth_eq; eauto.
+    + eexists. repeat split; cbn; auto.
+      * unfold end_rank. cbn. rewrite nth_error_set_nth_eq with (y := E_Start) by assumption. rewrite Hi, Eo. cbn.
+        pose proof (esum_set_nth _ _ _ E_Wait Hi). cbn in *. lia.
+      * eexists. eapply nth_error_set_nth_eq; eauto.
+    + eexists. repeat split; cbn; auto.
+      * unfold end_rank. cbn. rewrite nth_error_set_nth_eq with (y := E_Start) by assumption. rewrite Hi, Eo. cbn.
+        pose proof (esum_set_nth _ _ _ E_Done Hi). cbn in *. lia.
+      * eexists. eapply nth_error_set_nth_eq; eauto.
+  - (* E_Wait *)
+    destruct (once s) eqn:Eo.
+    + exfalso. apply (K7 _ Hi). reflexivity.
+    + destruct (K3 eq_refl) as (r & er & Hr & Hrp).
+      apply (Hrun r er Hr Hrp). right. split; [|reflexivity]. intros ->. rewrite Hi in Hr. inversion Hr; subst. discriminate.
+    + exists (End_wait i). unfold step. rewrite Hp, Hi, Eo.
+      eexists. repeat split; cbn; auto.
+      * unfold end_rank. cbn. rewrite nth_error_set_nth_eq with (y := E_Wait) by assumption. rewrite Hi, Eo. cbn.
+        pose proof (esum_set_nth _ _ _ E_Done Hi). cbn in *. lia.
+      * eexists. eapply nth_error_set_nth_eq; eauto.
+  - apply (Hrun i _ Hi eq_refl). auto.
+  - apply (Hrun i _ Hi eq_refl). auto.
+  - apply (Hrun i _ Hi eq_refl). auto.
+  - apply (Hrun i _ Hi eq_refl). auto.
+  - apply (Hrun i _ Hi eq_refl). auto.
+  - apply (Hrun i _ Hi eq_refl). auto.
+Qed.
+
+(* From every reachable state of the repaired code, a pending End call completes within
+   end_rank helpful steps (its own, the Once runner's, and those of the collector inside
+   Collect, whose in-flight Catch may return either way). *)
+Lemma end_terminates : forall n max s i e (oracle : bool), reachable V1 max s ->
+  nth_error (ends s) i = Some e -> end_rank s i <= n ->
+  exists tr s', length tr <= end_rank s i /\ forallb helpful tr = true /\ Forall (oracle_ok oracle) tr /\
+    run V1 s tr = Some s' /\ nth_error (ends s') i = Some E_Done.
+Proof.
+  induction n as [|n IH]; intros max s i e oracle R Hi Hle.
+  - destruct (end_pc_eq_dec e E_Done) as [->|Hne].
+    + exists [], s. repeat split; simpl; auto; lia.
+    + destruct (end_progress _ _ _ _ oracle R Hi Hne) as (l & s' & _ & _ & _ & Hdec & _). lia.
+  - destruct (end_pc_eq_dec e E_Done) as [->|Hne].
+    + exists [], s. repeat split; simpl; auto; lia.
+    + destruct (end_progress _ _ _ _ oracle R Hi Hne) as (l & s1 & Hs & Hh & Ho & Hdec & e1 & Hi1).
+      assert (R1 : reachable V1 max s1) by (eapply reach_step; eauto).
+      destruct (IH max s1 i e1 oracle R1 Hi1 ltac:(lia)) as (tr & s2 & Hlen & Hhelp & Hor & Hrun & Hd).
+      exists (l :: tr), s2. repeat split; simpl; auto; try lia.
+      * rewrite Hh. assumption.
+      * rewrite Hs. assumption.
+Qed.
